@@ -552,6 +552,7 @@ static void c20_rand_bytes(uint8_t *d, uint32_t n) {
     for (uint32_t i = 0; i < n; i++) d[i] = mode == 0 ? 0 : mode == 1 ? 0xff : (uint8_t)rnd64();
 }
 #include "scen_tpm12_nv.h"
+#include "scen_tpm12_flags.h"
 static void c20_sha_thread(Buf *b) {
     static uint8_t d[8192];
     c20_sha(b, "sha1start", T12_ORD_SHA1Start, 0, 0, NULL, 0);
@@ -598,6 +599,7 @@ static void c20_history(int h, void *arg) {
     c20nv_reset_notes();
     if (h % 3 == 2) TPMLIB_SetBufferSize(3072 + 64 * rnd(17), NULL, NULL); else TPMLIB_SetBufferSize(4096, NULL, NULL);
     tr("power maxbuf=%u", tpm12_maxbuf());
+    if (h % 6 == 1) { c20fl_history(&b, 70 + rnd(60)); b_free(&b); return; }     /* the enable / activate / ownership / clear automaton */
     if (h % 7 == 6) { c20_pcrread(&b, 0); c20_extend(&b, 0, d); if (chance(50)) c20_tis_hash(1); c20nv_read(&b, 0x00011200u, 0, 4); c20nv_tscpp(&b, 0x20); }   /* before Startup */
     c20_startup(&b);
     /* NV storage: two histories out of three mix NV commands into the PCR/SHA-1 stream; the usual preparation
